@@ -438,7 +438,7 @@ fn forwarded_names(v: &str, peer: &SocketAddr) -> bool {
 }
 
 fn profile() -> ChoiceProfile {
-    ChoiceProfile { read_faults: vec![FdClass::Front, FdClass::Back], write_faults: vec![FdClass::Front, FdClass::Back], max_points_per_class: 3, event_order: false }
+    ChoiceProfile { read_faults: vec![FdClass::Front, FdClass::Back], write_faults: vec![FdClass::Front, FdClass::Back], max_points_per_class: 3, event_order: false, ..Default::default() }
 }
 
 pub fn run_item(tier: Tier, item: usize) -> ItemResult {
